@@ -62,6 +62,8 @@ type FuncContract struct {
 	Fresh      bool
 	Ghost      []GhostUpdate // ghost assignments executed at every return
 	LoopAll    []Clause      // invariants that apply to every loop of the function
+	NoSafety   bool          // do not generate nil/bounds/assert/div/panic obligations (partial correctness of the stated clauses only)
+	Template   bool          // verif:methods template, instantiated for every matching method
 }
 
 func (c *FuncContract) FullName() string {
@@ -101,6 +103,7 @@ type ContractSet struct {
 	Files     []string
 	Ghosts    map[string]*GhostField // "Type.field"
 	Guarded   map[string]string      // "Type.field" -> lock field name (same struct)
+	Templates []*FuncContract
 }
 
 func newContractSet() *ContractSet {
@@ -196,6 +199,13 @@ func (cs *ContractSet) loadContractFile(path, pkgPath string) error {
 					}
 				}
 				cs.Units[curUnit] = curProps
+			case "methods":
+				fs := strings.Fields(arg)
+				if len(fs) == 0 || !strings.HasSuffix(fs[0], ".*") {
+					return fmt.Errorf("%s: verif:methods (*T).*", where)
+				}
+				cur = &FuncContract{Key: fs[0], PkgPath: pkgPath, Loops: map[int]*LoopSpec{}, Unit: curUnit, Props: curProps, Where: where, Template: true}
+				cs.Templates = append(cs.Templates, cur)
 			case "func", "extfunc":
 				fs := strings.Fields(arg)
 				if len(fs) == 0 {
@@ -379,6 +389,8 @@ func (cs *ContractSet) addClause(c *FuncContract, text, where string) error {
 		c.MayPanic = true
 	case "nilrecv":
 		c.NoNilRecv = true
+	case "nosafety":
+		c.NoSafety = true
 	case "results":
 		c.Results = strings.Fields(strings.ReplaceAll(rest, ",", " "))
 	case "props":
